@@ -111,6 +111,34 @@ def gen_exact(chk, H, B, E, table):
                 jobs.append(('plog', H.frag_syms(table, syms, mask), 5 if k % 4 else 0,
                              'stdout' if k % 2 else 'stderr', True))
     jobs.append(('plog', [b'hello' + B + b'abc' + E + b'x'], 10, 'stdout', True))
+    # configuration dimension: how the ordinary log is configured (file / NONE / rotating handler that
+    # never rolls / syslog only / file and syslog); syslog only for the all-ASCII families
+    cycles = {'box3': [H.LOG_FILE, H.LOG_NONE, H.LOG_FILE, H.LOG_ROTATING], 'cut1': [H.LOG_FILE, H.LOG_NONE],
+              'cut2': [H.LOG_FILE, H.LOG_NONE, H.LOG_ROTATING],
+              'capsweep': [H.LOG_FILE, H.LOG_NONE, H.LOG_SYSLOG_ONLY, H.LOG_FILE_AND_SYSLOG, H.LOG_ROTATING],
+              'random': [H.LOG_FILE, H.LOG_NONE, H.LOG_ROTATING], 'plog': [H.LOG_FILE, H.LOG_NONE]}
+    count = {}
+    out = []
+    for j in jobs:
+        i = count[j[0]] = count.get(j[0], 0) + 1
+        cyc = cycles[j[0]]
+        # walk the cycle with a stride coprime to the family's own periodic choices
+        out.append(j + (cyc[(i + i // 7) % len(cyc)],))
+    jobs = out
+    # reopenlogs() / removelogs() in every dispatcher phase: before anything, outside a section with
+    # and without a held-back tag prefix, inside a section, after the section, before the final flush
+    s0 = b'ab' + B + b'cde' + E + b'f' + B[:9]
+    k = 0
+    for c in range(0, len(s0) + 1):
+        for what in ('reopen', 'clear'):
+            for cm in (2, 1000, 0):
+                k += 1
+                script = ([s0[:c]] if c else []) + [what] + ([s0[c:]] if c < len(s0) else [])
+                jobs.append(('phase', script, cm, 'stdout' if k % 2 else 'stderr', k % 5 == 0,
+                             [H.LOG_FILE, H.LOG_NONE, H.LOG_ROTATING][k % 3]))
+    for c1 in range(1, len(s0), 3):
+        for c2 in range(c1 + 1, len(s0), 4):
+            jobs.append(('phase', [s0[:c1], 'clear', s0[c1:c2], 'reopen', s0[c2:], 'clear'], 1000, 'stdout', False, H.LOG_FILE))
     return jobs
 
 
@@ -122,19 +150,19 @@ def gen_sum(chk):
     for syms in itertools.product(range(8), repeat=4):
         for cm in ((2, 8, 1000) if quick else (1, 2, 3, 8, 24, 1000)):
             k += 1
-            jobs.append((list(syms), cm, bool(k % 2)))
+            jobs.append((list(syms), cm, 1 if k % 5 == 0 else 0, bool(k % 2)))
     # quick: 5 symbols without 0xFF (just another ordinary byte); thorough: all 8
     for syms in itertools.product(range(7 if quick else 8), repeat=5):
         k += 1
-        jobs.append((list(syms), 1000 if k % 3 else 2, bool(k % 2)))
+        jobs.append((list(syms), 1000 if k % 3 else 2, 1 if k % 5 == 0 else 0, bool(k % 2)))
     if not quick:
         for syms in itertools.product(range(8), repeat=6):
             k += 1
-            jobs.append((list(syms), 1000 if k % 3 else 2, bool(k % 2)))
+            jobs.append((list(syms), 1000 if k % 3 else 2, 1 if k % 5 == 0 else 0, bool(k % 2)))
         rng = chk.rng
         for _ in range(20000):
             k += 1
-            jobs.append(([rng.randrange(15) for _ in range(7)], rng.choice(CAPS), bool(k % 2)))
+            jobs.append(([rng.randrange(15) for _ in range(7)], rng.choice(CAPS), 1 if k % 5 == 0 else 0, bool(k % 2)))
     return jobs
 
 
@@ -183,7 +211,9 @@ def gen_cuts(chk, B, E):
         for ln in sorted(set([cap - 1, cap, cap + 1, 2 * cap])):
             payload = bytes(33 + (i % 90) for i in range(ln))
             s = b'ordinary output before the section ' + B + payload + E + b'q'
-            jobs.append((s, cap, 7 if chk.tier == 'quick' else 3))
+            jobs.append((s, cap, 0, 7 if chk.tier == 'quick' else 3))
+            if ln == cap:
+                jobs.append((s, cap, 1, 7 if chk.tier == 'quick' else 3))    # no ordinary log configured
     return jobs
 
 
@@ -196,7 +226,9 @@ def gen_finish(chk, B, E):
     for s in streams:
         for cap in ((10, 3, 1000) if chk.tier == 'quick' else (1, 3, 10, 12, 1000)):
             for c in range(0, len(s) + 1):
-                jobs.append((s, c, cap))
+                jobs.append((s, c, cap, False))
+                if cap == 10:
+                    jobs.append((s, c, cap, True))    # stdout_logfile = NONE
     return jobs
 
 
@@ -206,17 +238,33 @@ def frags_lit(frags):
     return coq_list([vlib.bytes_lit(f) for f in frags])
 
 
+def script_lit(script):
+    return coq_list(['RReopen' if f == 'reopen' else ('RClear' if f == 'clear' else '(RRead %s)' % vlib.bytes_lit(f))
+                     for f in script])
+
+
 def exact_term(job, trace, incap=None):
-    fam, frags, cm, ch, ev = job
+    import c08_disp as H
+    fam, script, cm, ch, ev, logmode = job
     if ev:
-        return '(%s, %s, %s, %s)' % (zlit(cm), blit(incap), frags_lit(frags), zlist(trace))
-    return '(%s, %s, %s)' % (zlit(cm), frags_lit(frags), zlist(trace))
+        return '(%s, %s, %s, %s, %s)' % (zlit(cm), blit(H.has_file(logmode)), blit(incap), script_lit(script), zlist(trace))
+    return '(%s, %s, %s, %s)' % (zlit(cm), blit(H.has_file(logmode)), script_lit(script), zlist(trace))
+
+
+LOGMODES = ['file', 'none', 'rotating-never-rolls', 'syslog-only', 'file-and-syslog']
 
 
 def _jsonable_job(job):
-    fam, frags, cm, ch, ev = job
-    return {'family': fam, 'frags': [list(f) for f in frags], 'capture_maxbytes': cm, 'channel': ch,
-            'events_enabled': ev}
+    fam, script, cm, ch, ev, logmode = job
+    return {'family': fam, 'script': [(list(f) if isinstance(f, bytes) else f) for f in script], 'capture_maxbytes': cm,
+            'channel': ch, 'events_enabled': ev, 'ordinary_log': LOGMODES[logmode]}
+
+
+def _job_from_json(c, fam='replay'):
+    script = c.get('script', c.get('frags'))
+    return (c.get('family', fam), [(f if isinstance(f, str) else bytes(f)) for f in script], c['capture_maxbytes'],
+            c.get('channel', 'stdout'), bool(c.get('events_enabled', False)),
+            LOGMODES.index(c.get('ordinary_log', 'file')))
 
 
 def _run(chk, wd, proved):
@@ -262,17 +310,18 @@ def _run(chk, wd, proved):
                       nofail=not bres[i][1])
     # ---- data arriving only at reap time, through the real Subprocess.finish()
     fcases, fmeta = [], []
-    for (s, c, cap), (log, comm, fail) in zip(fjobs, fres):
+    for (s, c, cap, nolog), (log, comm, fail) in zip(fjobs, fres):
         nruns += 1
         chk.dist('finish:cap=%d' % cap)
         frags = ([s[:c]] if c > 0 else []) + [s[c:]]
         desc = {'stream': list(s), 'read_before_exit': c, 'still_in_pipe_at_reap': len(s) - c, 'capture_maxbytes': cap,
+                'stdout_logfile': 'NONE' if nolog else 'a file',
                 'how': 'real Subprocess.spawn/finish on the fake kernel seam: write stream[:cut], read, write stream[cut:], '
                        'exit, reap'}
         if fail:
             chk.violation(dict(desc, kind='the implementation failed in Subprocess.finish()', why=fail))
             continue
-        why = H.judge(s, {'log': log, 'comm': comm}, B, E, cap)
+        why = H.judge(s, {'log': log, 'comm': comm}, B, E, cap, haslog=not nolog)
         if why:
             if len([1 for _p, nf in chk.violations if not nf]) < 8:
                 chk.violation(dict(desc, kind='the implementation violates C08 when the data is drained at reap time '
@@ -280,37 +329,37 @@ def _run(chk, wd, proved):
                                    events=[list(x) for x in comm]))
             continue
         distinct.add(('f', len(log), tuple(len(x) for x in comm)))
-        fcases.append('(%s, %s, %s, %s)' % (zlit(cap), frags_lit(frags), vlib.bytes_lit(log), frags_lit(comm)))
+        fcases.append('(%s, %s, %s, %s, %s)' % (zlit(cap), blit(not nolog), frags_lit(frags), vlib.bytes_lit(log), frags_lit(comm)))
         fmeta.append(desc)
-    bad, errs = vlib.coq_compare(IMPORTS, 'Z * list bytes * bytes * list bytes', 'check_final', fcases, wd, tag='finish', shard=300)
+    bad, errs = vlib.coq_compare(IMPORTS, 'Z * bool * list bytes * bytes * list bytes', 'check_final', fcases, wd, tag='finish', shard=300)
     for e in errs:
         chk.violation({'kind': 'model evaluation failed', 'part': 'finish', 'error': e}, nofail=True)
     for i in bad[:5]:
         chk.violation(dict(fmeta[i], kind='model and implementation disagree on a run through Subprocess.finish()'), nofail=True)
     # ---- byte-level cuts around capture_maxbytes
     ccases = []
-    for (s, cap, stride), (total, n, badj) in zip(cjobs, cres):
+    for (s, cap, lm, stride), (total, n, badj) in zip(cjobs, cres):
         nruns += n
         chk.dist('cuts:cap=%d' % cap, n)
         for c1, c2, why in (badj[:2] if len(chk.violations) < 12 else []):
             chk.violation({'kind': 'the implementation violates C08 on this input (judged by the reference splitter)',
-                           'why': why, 'case': _jsonable_job(('cuts', H.cut_frags(s, c1, c2), cap, 'stdout', False))})
+                           'why': why, 'case': _jsonable_job(('cuts', H.cut_frags(s, c1, c2), cap, 'stdout', False, lm))})
         distinct.add(('c', total))
-        ccases.append('(%s, %s, %d%%nat, %s)' % (vlib.bytes_lit(s), zlit(cap), stride, zlit(total)))
-    bad, errs = vlib.coq_compare(IMPORTS, 'bytes * Z * nat * Z', 'check_cuts', ccases, wd, tag='cuts', shard=1)
+        ccases.append('(%s, %s, %s, %d%%nat, %s)' % (vlib.bytes_lit(s), zlit(cap), blit(H.has_file(lm)), stride, zlit(total)))
+    bad, errs = vlib.coq_compare(IMPORTS, 'bytes * Z * bool * nat * Z', 'check_cuts', ccases, wd, tag='cuts', shard=1)
     for e in errs:
         chk.violation({'kind': 'model evaluation failed', 'part': 'cuts', 'error': e}, nofail=True)
     if bad:
         H._worker_init(wd)
         loc, loc_meta = [], []
-        s, cap, stride = cjobs[bad[0]]
+        s, cap, lm, stride = cjobs[bad[0]]
         for (c1, c2) in H.cut_pairs(len(s), stride)[:400]:
-            job = ('cuts', H.cut_frags(s, c1, c2), cap, 'stdout', False)
+            job = ('cuts', H.cut_frags(s, c1, c2), cap, 'stdout', False, lm)
             tr, why, summ = H.exact_job(job[1:])
             if tr is not None:
                 loc.append(exact_term(job, tr))
                 loc_meta.append((job, tr))
-        b2, errs = vlib.coq_compare(IMPORTS, 'Z * list bytes * list Z', 'check_exact', loc, wd, tag='cloc', shard=50)
+        b2, errs = vlib.coq_compare(IMPORTS, 'Z * bool * list rop * list Z', 'check_exact', loc, wd, tag='cloc', shard=50)
         _report(chk, b2, errs, loc_meta, loc, 'cuts->exact')
         if not b2:
             chk.violation({'kind': 'checksum over the byte-level cuts differs but none of the first 400 runs does',
@@ -326,7 +375,8 @@ def _run(chk, wd, proved):
             chk.violation({'kind': 'the implementation violates C08 on this input (judged by the reference splitter)',
                            'why': why, 'case': _jsonable_job(job)})
             continue
-        if summ[1] or summ[3] or summ[0] < sum(len(f) for f in job[1]):
+        chk.dist('log:' + LOGMODES[job[5]])
+        if summ[1] or summ[3] or summ[0] < sum(len(f) for f in job[1] if isinstance(f, bytes)):
             distinct.add(summ[:4])
         if job[4]:
             if summ[4]:
@@ -336,14 +386,14 @@ def _run(chk, wd, proved):
         else:
             plain.append(exact_term(job, tr))
             plain_meta.append((job, tr))
-    bad, errs = vlib.coq_compare(IMPORTS, 'Z * list bytes * list Z', 'check_exact', plain, wd, tag='exact', shard=150)
+    bad, errs = vlib.coq_compare(IMPORTS, 'Z * bool * list rop * list Z', 'check_exact', plain, wd, tag='exact', shard=150)
     _report(chk, bad, errs, plain_meta, plain, 'exact')
-    bad, errs = vlib.coq_compare(IMPORTS, 'Z * bool * list bytes * list Z', 'check_exact_plog', pl, wd, tag='plog', shard=150)
+    bad, errs = vlib.coq_compare(IMPORTS, 'Z * bool * bool * list rop * list Z', 'check_exact_plog', pl, wd, tag='plog', shard=150)
     if bad and not errs:
         # acceptance rule for the known finding: the repaired behaviour (no
         # PROCESS_LOG event for captured data) is accepted as well
         retry = [exact_term(pl_meta[i][0], pl_meta[i][1], incap=False) for i in bad]
-        bad2, errs = vlib.coq_compare(IMPORTS, 'Z * bool * list bytes * list Z', 'check_exact_plog', retry, wd,
+        bad2, errs = vlib.coq_compare(IMPORTS, 'Z * bool * bool * list rop * list Z', 'check_exact_plog', retry, wd,
                                       tag='plog2', shard=150)
         if len(bad2) < len(bad):
             chk.note('PROCESS_LOG events are no longer emitted for captured data on %d inputs (C08-proclog does not reproduce)'
@@ -360,13 +410,13 @@ def _run(chk, wd, proved):
         nruns += n
         chk.dist('sum:n=%d' % len(job[0]), n)
         for mask, why in badj[:3]:
-            fr = H.frag_syms(table, job[0], mask) + ([b''] if job[2] else [])
+            fr = H.frag_syms(table, job[0], mask) + ([b''] if job[3] else [])
             chk.violation({'kind': 'the implementation violates C08 on this input (judged by the reference splitter)',
-                           'why': why, 'case': _jsonable_job(('sum', fr, job[1], 'stdout', False))})
-        scases.append('(%s, %s, %s, %s)' % (zlist(job[0]), zlit(job[1]), blit(job[2]), zlit(total)))
+                           'why': why, 'case': _jsonable_job(('sum', fr, job[1], 'stdout', False, job[2]))})
+        scases.append('(%s, %s, %s, %s, %s)' % (zlist(job[0]), zlit(job[1]), blit(H.has_file(job[2])), blit(job[3]), zlit(total)))
         smeta.append(job)
         distinct.add(('s', total))
-    bad, errs = vlib.coq_compare(IMPORTS, 'list Z * Z * bool * Z', 'check_sum', scases, wd, tag='sum', shard=600)
+    bad, errs = vlib.coq_compare(IMPORTS, 'list Z * Z * bool * bool * Z', 'check_sum', scases, wd, tag='sum', shard=600)
     for e in errs:
         chk.violation({'kind': 'model evaluation failed', 'part': 'sum', 'error': e}, nofail=True)
     if bad:
@@ -374,16 +424,16 @@ def _run(chk, wd, proved):
         H._worker_init(wd)
         loc, loc_meta = [], []
         for i in bad[:5]:
-            syms, cm, eof = smeta[i]
+            syms, cm, lm, eof = smeta[i]
             for mask in range(2 ** (len(syms) - 1)):
                 fr = H.frag_syms(table, syms, mask) + ([b''] if eof else [])
                 ch = 'stdout' if (mask + len(syms)) % 2 == 0 else 'stderr'
-                job = ('sum', fr, cm, ch, False)
+                job = ('sum', fr, cm, ch, False, lm)
                 tr, why, summ = H.exact_job(job[1:])
                 if tr is not None:
                     loc.append(exact_term(job, tr))
                     loc_meta.append((job, tr))
-        b2, errs = vlib.coq_compare(IMPORTS, 'Z * list bytes * list Z', 'check_exact', loc, wd, tag='loc', shard=150)
+        b2, errs = vlib.coq_compare(IMPORTS, 'Z * bool * list rop * list Z', 'check_exact', loc, wd, tag='loc', shard=150)
         _report(chk, b2, errs, loc_meta, loc, 'sum->exact')
         if not b2:
             chk.violation({'kind': 'checksum over all fragmentations differs but no single run does',
@@ -403,6 +453,9 @@ def _run(chk, wd, proved):
                    'canonical streams, capture_maxbytes in %r and -1; the real BoundIO alone on every sequence of <= 4 writes with '
                    'sizes {0,1,mb-1,mb,mb+1,2mb} for mb in 1..6 (+ larger bounds, random); sections of length cap-1, cap, cap+1, 2cap '
                    'for cap in {8,30,40,100} behind a flushing prefix with every 2-read split and 3-read splits at multiples of 7; '
+                   'reopenlogs()/removelogs() before, between and after the reads at every cut of a stream with a section and a '
+                   'trailing tag prefix; the ordinary log configured as a file / NONE / a rotating handler that never rolls / syslog '
+                   'only / file and syslog across all families (NONE also in the checksum, cut and finish families); '
                    'every cut point of 8 streams with 0-2 sections where the part after the cut is still in the pipe at reap, through '
                    'the real Subprocess.finish() on the fake kernel seam; '
                    'distinct_nontrivial = distinct (log length, events, event '
@@ -434,8 +487,7 @@ def _load_corpus():
                 with open(os.path.join(d, f)) as fh:
                     o = json.load(fh)
                 for c in o.get('cases', []):
-                    out.append(('corpus', [bytes(x) for x in c['frags']], c['capture_maxbytes'],
-                                c.get('channel', 'stdout'), bool(c.get('events_enabled', False))))
+                    out.append(_job_from_json(c, 'corpus'))
     return out
 
 
@@ -447,10 +499,9 @@ def replay(chk, path):
     print(json.dumps(obj, indent=1)[:3000])
     proved = chk.prove('props/C08.v', gens=_gens(), extra_targets=['C08/StreamCheck.vo'])
     c = obj.get('case')
-    if not c or 'frags' not in c:
+    if not c or ('frags' not in c and 'script' not in c):
         return run(chk)
-    job = (c.get('family', 'replay'), [bytes(x) for x in c['frags']], c['capture_maxbytes'], c.get('channel', 'stdout'),
-           bool(c.get('events_enabled', False)))
+    job = _job_from_json(c)
     with vlib.WorkDir('c08r') as wd:
         H._worker_init(wd)
         B, E = H._TOK
@@ -462,11 +513,11 @@ def replay(chk, path):
             return
         if job[4]:
             terms = [exact_term(job, tr, incap=True), exact_term(job, tr, incap=False)]
-            bad, errs = vlib.coq_compare(IMPORTS, 'Z * bool * list bytes * list Z', 'check_exact_plog', terms, wd, tag='rp')
+            bad, errs = vlib.coq_compare(IMPORTS, 'Z * bool * bool * list rop * list Z', 'check_exact_plog', terms, wd, tag='rp')
             bad = [0] if len(bad) == 2 else []
         else:
             terms = [exact_term(job, tr)]
-            bad, errs = vlib.coq_compare(IMPORTS, 'Z * list bytes * list Z', 'check_exact', terms, wd, tag='rp')
+            bad, errs = vlib.coq_compare(IMPORTS, 'Z * bool * list rop * list Z', 'check_exact', terms, wd, tag='rp')
         _report(chk, bad, errs, [(job, tr)], terms, 'replay')
         if not proved:
             chk.violation({'kind': 'proof obligation no longer checks', 'detail': chk.proof_failure}, nofail=True)
